@@ -3,6 +3,7 @@ package client
 import (
 	"context"
 	"errors"
+	"github.com/truora/minidyn/verifhook"
 
 	"github.com/aws/aws-sdk-go-v2/aws"
 	"github.com/aws/aws-sdk-go-v2/service/dynamodb"
@@ -141,6 +142,8 @@ func ClearTable(client FakeClient, tableName string) error {
 	table.Clear()
 
 	for _, index := range table.Indexes {
+		verifhook.At("client.clearTable.beforeIndex")
+
 		index.Clear()
 	}
 
